@@ -230,6 +230,46 @@ func runC07(c *Ctx) {
 		c.Undecided(fname(pwq)+"#pays-once", pwq.Pos(), "no AddBalance in processWithdrawQueue")
 	}
 
+	// ------------------------------------------------------------ P5
+	c.Rule("C07.P5", "GATE", "a pending withdrawal's FinalBalance is reduced in place (penalties) only for records whose Finished flag is still 0: a record that was already paid out keeps its FinalBalance for the retention period and must not be taken from again")
+	c.Min(1)
+	nDebit := 0
+	for _, fn := range w.FuncsIn("staking") {
+		if strings.HasSuffix(w.fileOf(fn.Pos()), "_test.go") {
+			continue
+		}
+		for _, ci := range callInstrs(fn) {
+			o := calleeObj(ci)
+			if o == nil || recvName(o) != "Int" || (o.Name() != "Sub" && o.Name() != "Set" && o.Name() != "SetUint64") {
+				continue
+			}
+			r := callRecv(ci)
+			if r == nil {
+				continue
+			}
+			if f, _ := loadedField(stripConv(r)); f != finalBal {
+				continue
+			}
+			nDebit++
+			c.sites++
+			c.sawFunc(fname(fn))
+			unfinished := false
+			for _, a := range atomsOf(factsAtInstr(ci)) {
+				if a.Kind == "eq" && a.Truth {
+					if f, _ := loadedField(stripConv(a.X)); f == finished {
+						if n, ok := constInt(a.Y); ok && n == 0 {
+							unfinished = true
+						}
+					}
+				}
+			}
+			c.Check(fmt.Sprintf("%s#FinalBalance.%s-only-if-unfinished", outerName(fname(fn)), o.Name()), ci.Pos(), unfinished, ifelse(unfinished, "dominated by Finished == 0", "the amount of a withdraw record is reduced without testing that it is still unpaid: a penalty is \"taken\" from tokens that already left, and is credited to the penalty account out of nothing"))
+		}
+	}
+	if nDebit == 0 {
+		c.Undecided("staking#FinalBalance-debits", 0, "no in-place decrease of WithdrawRecord.FinalBalance found")
+	}
+
 	// ------------------------------------------------------------ P4
 	c.Rule("C07.P4", "CONFINED+ALWAYS-WITH", "every AddBalance/SubBalance/SetBalance call site outside core/vm and core/state is tabled with its counterpart; submission handlers debit the value they record; blockRewards debits the rewards pool iff it adds the same amount to the total; buyGas and refundGas price gas with the same GasPrice")
 	c.Min(15)
@@ -470,6 +510,22 @@ func c07P4(c *Ctx, w *World) {
 			}
 		}
 		c.Check(n+"#balance-mutation", pos[n], same, ifelse(same, "tabled: "+e.pair, fmt.Sprintf("the balance mutations of this function changed from the reviewed %v to %v", e.n, got[n])))
+	}
+	// a tabled debit/credit must still be there
+	for n, e := range table {
+		if _, has := got[n]; has {
+			continue
+		}
+		// does the function still exist?
+		exists := false
+		for _, fn := range w.AllFuncs() {
+			if outerName(fname(fn)) == n {
+				exists = true
+			}
+		}
+		if exists {
+			c.Fail(n+"#balance-mutation", 0, fmt.Sprintf("the reviewed balance movement of this function (%v: %s) is gone: its counterpart is now unmatched", e.n, e.pair))
+		}
 	}
 	// blockRewards: pool debit iff the same amount enters the total
 	br := w.Fn("staking", "", "blockRewards")
